@@ -32,9 +32,13 @@ def _rand_pva(r, wd, near=None):
         lat, lon, alt = wd['lat'], wd['lon'], wd['alt']
     else:
         lat, lon, alt = near
+    vd = _f(r.uniform(-8, 8))
+    if r.random() < 0.15:
+        # a vertical velocity of round-off size (not zero, not ordinary)
+        vd = [1e-9, -1e-9, 5e-9, -3e-12, 1e-15, -1e-7][int(r.integers(6))]
     return [_f(lat + r.uniform(-0.01, 0.01)), _f(lon + r.uniform(-0.01, 0.01)),
             _f(alt + r.uniform(-50, 50)),
-            _f(r.uniform(-60, 60)), _f(r.uniform(-60, 60)), _f(r.uniform(-8, 8)),
+            _f(r.uniform(-60, 60)), _f(r.uniform(-60, 60)), vd,
             _f(r.uniform(-40, 40)), _f(r.uniform(-40, 40)), _f(r.uniform(-180, 180))]
 
 
